@@ -136,6 +136,16 @@ class LeaseCheckingCrawler(ShareCrawler):
         # the keys individually
         for k in so_far:
             self.state["cycle-to-date"].setdefault(k, so_far[k])
+        # the state file stores the lease-age histogram as a list of
+        # [minage, maxage, count] (JSON has no tuple keys); when a cycle is
+        # resumed from the state file turn it back into the dict this class
+        # updates, otherwise the resumed cycle fails on the first lease.
+        lah = self.state["cycle-to-date"]["lease-age-histogram"]
+        if isinstance(lah, list):
+            self.state["cycle-to-date"]["lease-age-histogram"] = {
+                (minage, maxage): count
+                for (minage, maxage, count) in lah
+            }
 
     def create_empty_cycle_dict(self):
         recovered = self.create_empty_recovered_dict()
